@@ -41,6 +41,8 @@ CLAUSES = {
     "7": "the send window after acceptance is not min(configured or overridden max_send, peer Receive Maximum)",
     "8": "the v5 CONNACK does not announce the limits in force (or the keep-alive imposed below the client's)",
     "9": "a probe above a limit in force was handled, or a probe within all limits ended the connection",
+    "10": "C15: the DISCONNECT refusing a PUBLISH over a limit does not carry the code dedicated to that limit "
+          "(packet too large 0x95, QoS not supported 0x9B)",
 }
 
 
@@ -153,8 +155,9 @@ def expected_limits(cfg, v5, ka, peer_rm):
             "ska": ov_ska - 1 if ov_ska else (eff_ka if eff_ka < ka else None)}
 
 
-def py_oracle(case, obs):
-    """'1' = the observation is consistent with C19, '0,<clause>' otherwise"""
+def py_oracle(case, obs, codes=False):
+    """'1' = the observation is consistent with C19, '0,<clause>' otherwise; with `codes` (property C15) the
+    DISCONNECT that refuses a probe over a limit must carry the code MQTT 5 dedicates to that limit (clause 10)"""
     if obs in ("9999", "97"):
         return "0,0"
     cf = case.split(";")
@@ -262,6 +265,7 @@ def py_oracle(case, obs):
                 or topic == b"h" or (tb & 1):
             break
         over = (lim["max_in"] and len(body) > lim["max_in"]) or qos > lim["qos"]
+        want_code = 149 if (lim["max_in"] and len(body) > lim["max_in"]) else 155
         alias = None
         if v5 and not over:
             i = 2 + tl + (2 if qos else 0)
@@ -274,12 +278,18 @@ def py_oracle(case, obs):
                 if alias == 0:
                     break
                 over = alias > lim["alias"]
+                want_code = None      # an alias above the announced maximum: "a protocol error" (C17), no code is
+                                      # dedicated to it by the property (C15 lists the UNKNOWN alias)
                 if not topic:
                     break
             elif pl != 0:
                 break
         if over and (st[0] != handlers or st[2] != 1):
             return "0,9"
+        if over and codes and v5 and want_code is not None:
+            wf = first_frame(bytes(t[:t.index(999)]))
+            if wf in (None, "bad") or wf[0] != 0xE0 or (wf[1][0] if wf[1] else 0) != want_code:
+                return "0,10"
         if not over and (st[0] != handlers + 1 or st[2] != 0):
             return "0,9"
         break                                       # later probes depend on inbound state (ids, aliases)
